@@ -62,6 +62,7 @@ class Model:
         self.failflags = set()
         self.stampflags = set()
         self.usermod_flags = set()
+        self.missing_dirs = set()    # directories of generated-only files that the user removed (rm -rf build dir)
         self.concurrent_mod = []
         self.dofiles = {}
         self.rec = {}
@@ -446,6 +447,9 @@ class Model:
                     usermodded = True
             elif k == "out":
                 out_mode = st[1]
+                if out_mode == "file" and P.dirname(p) in self.missing_dirs:
+                    rc = 2          # the script cannot create $3 in a directory that does not exist
+                    break
             elif k in ("stamp", "stampgate"):
                 stamped = True
             elif k == "stampif":
@@ -455,6 +459,8 @@ class Model:
                 stamped = not (f is not None and f.data == P.source_content(st[1], 1))
             else:
                 raise ValueError(st)
+        if rc == 0 and out_mode == "stdout" and P.dirname(p) in self.missing_dirs:
+            rc = 209                # the script succeeded but redo cannot put its output in place
         if rc == 0 and soft:
             rc = soft
         if rc == 0 and usermodded:
